@@ -8,3 +8,32 @@ def _sig(name):
     def f(rec, failure):
         return rec.get('sig') == name
     return f
+
+
+import re
+
+_RFC_SPLIT = re.compile(r'^(([^:/?#]+):)?(//([^/?#]*))?([^?#]*)(\?([^#]*))?(#(.*))?$', re.S)
+
+
+def _authority(s):
+    m = _RFC_SPLIT.match(s)
+    return m.group(4) if m and m.group(3) is not None else None
+
+
+def C12_pct_host(rec, failure):
+    """F25: net/url rejects a percent-encoded octet in the host (reg-name allows pct-encoded).
+    Input predicate: the authority of the base or of the reference contains '%'.
+    Deviation: the implementation returns a parse error of class 'escape' for exactly that operand."""
+    if rec.get('k') not in ('K/C12/resolve', 'K/C12/parseprint'):
+        return False
+    impl = rec.get('impl', '')
+    ins = rec.get('in', [])
+    if rec['k'] == 'K/C12/parseprint':
+        a = _authority(ins[0])
+        return impl == '!escape' and a is not None and '%' in a
+    ab, ar = _authority(ins[0]), _authority(ins[1])
+    if impl == '!base:escape':
+        return ab is not None and '%' in ab
+    if impl == '!ref:escape':
+        return ar is not None and '%' in ar and not (ab is not None and '%' in ab)
+    return False
